@@ -73,6 +73,32 @@ func init() {
 		RequiredProbes: []string{"wrong_codec_refused", "reserved_codec_rejected", "same_codec_reopened", "reads_overlapping_a_write", "append_ge_64KiB_acked"},
 		QuickS:         45, ThoroughS: 600,
 	}
+	clusterRule := "each run = a simulated cluster of 2-4 nodes, each a verifier.NewLogStore over an in-memory reference store behind a seam wrapper (every inner call a yield point; GetLog can return an altered copy), driven by a small model of raft log replication that only generates histories raft could produce: leader appends (checkpoints at tape-chosen places, bootstrap configuration entry at index 1), replication of the leader's stored entries to a follower in batch splits of 1-5, follower lag, leadership change to any node whose log is at least as up to date as a majority's (new leader appends a no-op; followers truncate their conflicting suffix before appending), snapshot install on followers behind the leader's first index, middleware restart (new LogStore over the same inner store), head truncation; truncations wait until no verification of the node is pending (the quantifier's side condition). The verifier goroutines are scheduled by the simulator. Ground truth (what each leader checksummed per checkpoint, what each node stores) is kept by the driver and every delivered VerificationReport is judged against it. "
+	propSpecs["C16"] = &PropSpec{
+		ID:             "C16",
+		Rule:           clusterRule + "C16: no corruption is injected; a node that stores the whole range exactly as checksummed must get a report without error; a node lacking part of the range must get ErrRangeMismatch. Non-trivial = at least one checkpoint; distinct = interleaving hash + (nodes, leader changes).",
+		Components:     "real: verifier (store.go, verifier.go, metrics.go), metrics.AtomicCollector; harness: replication driver, in-memory inner stores; scheduler adopts each runVerifier goroutine",
+		Assumptions:    []string{"inner stores are the in-memory reference store (the WAL as inner store is exercised by the other properties)", "reports whose leader no longer held its whole range when writing the checkpoint are not judged (counted as reports_truth_unknown)"},
+		RequiredProbes: []string{"checkpoints", "reports_clean_range", "reports_range_not_held", "conflict_truncations", "leader_changes", "middleware_restarts", "head_truncations"},
+		QuickS:         40, ThoroughS: 600,
+	}
+	propSpecs["C17"] = &PropSpec{
+		ID:             "C17",
+		Rule:           clusterRule + "C17: exactly one mutation per run - in flight (the copy handed to one follower's StoreLogs differs: data bit flip / truncate / extend, term, type, extensions) or at rest (a node's inner store returns one entry altered on read, incl. index) - on leader or follower, at a tape-chosen position of a range that a later checkpoint covers; index-1 configuration entries excluded. A node that fully holds the range must get ErrChecksumMismatch; the in-flight wording only if the node really stored something else than the leader checksummed. Non-trivial = the mutation reached a verified range.",
+		Components:     "real: verifier; harness: replication driver with mutation faults",
+		Assumptions:    []string{"64-bit FNV collisions are not expected at this sample size"},
+		RequiredProbes: []string{"checkpoints", "reports_divergent_range", "mutation_reached_a_verified_range"},
+		RequiredFired:  []string{"mutation_in_flight_term", "mutation_in_flight_type", "mutation_in_flight_extensions", "mutation_at_rest_term", "mutation_at_rest_index"},
+		QuickS:         40, ThoroughS: 600,
+	}
+	propSpecs["C18"] = &PropSpec{
+		ID:             "C18",
+		Rule:           clusterRule + "C18: ReportFn is a harness gate kept blocked for tape-chosen spans (across 0..n further checkpoints), the verifier is parked inside its reads of the inner store; transparency probes compare FirstIndex / LastIndex / GetLog / stored entries through the middleware with the inner store and submit a checkpoint with foreign Extensions (must be refused, nothing stored). Oracles: no task may block forever / exceed the step budget while a gate is closed (StoreLogs completes); after the gates open and the system is quiescent #checkpoints == #reports + dropped_reports, checkpoints_written and ranges_verified agree; every dropped checkpoint's range is covered by the SkippedRange of the next delivered report (exactly, when ranges are contiguous).",
+		Components:     "real: verifier; harness: replication driver, gates",
+		Assumptions:    []string{"bounded liveness is measured in scheduler steps, not wall time"},
+		RequiredProbes: []string{"checkpoints", "reportfn_blocked", "reports_dropped", "skipped_range_named", "transparency_probes", "foreign_extensions_refused"},
+		QuickS:         40, ThoroughS: 600,
+	}
 	propSpecs["C19"] = &PropSpec{
 		ID: "C19",
 		Rule: "each run = one CopyLogs (80%) or CopyStable (20%) call. CopyLogs: source of 0,1,2,3,5,8,13,40 or 120 entries (payload 0-5000 bytes, extensions) starting at 1, 2, 1000, 2^32-2 or 2^40; batchBytes 0, 1, around one entry, 200, 5000, 2^30; source and destination each one of {real WAL over the simulated disk, real raft-boltdb store on tmpfs, in-memory reference store}; progress channel nil / buffered / unbuffered and never drained; every store call is a seam: in a quarter of the runs the context is cancelled before store call k, in a quarter store call k returns an I/O error. " +
